@@ -179,6 +179,15 @@ class InfoCompiler(BaseOutlineCompiler):
             for key, n in orig_names.items()
             if key in temp_names or (key[0], key[1], key[3]) not in rewritten
         }
+        # ... and so must a predefined name that the overridden info no longer yields
+        # at all: the typographic family / subfamily (IDs 16, 17) are left out when
+        # they equal the legacy ones, an overridden string may be empty
+        orig_names = {
+            key: n
+            for key, n in orig_names.items()
+            if key in temp_names
+            or not (key[0] < 256 and key[1] == 3 and key[3] == 0x409)
+        }
         orig_names.update(temp_names)
         orig.names = list(orig_names.values())
 
